@@ -441,6 +441,32 @@ def check_record_creation_guarded(ctx, res: Result, cls: str, skip=("add_edge", 
                 lab = _implied_branch(ifn.test, atom, not is_in)
                 if lab and v.cfg.branch_dominated(v.cfg.by_ast[id(ifn.test)], lab, sid):
                     ok = True
+            if not ok and name.startswith("_") and not name.startswith("__"):
+                # a private helper that registers the record for a key it is handed: the freshness test belongs to its callers
+                pn = [a.arg for a in fi.params]
+                key_from_param = st.key is not None and any(isinstance(x, ast.Name) and x.id in pn for x in ast.walk(v.inline(st.key)))
+                if key_from_param:
+                    callers_ok, n_calls = True, 0
+                    for cname, cfi in ctx.methods(cls).items():
+                        cv = ctx.view(cfi)
+                        for c in walk_no_nested(cfi.node):
+                            if isinstance(c, ast.Call) and fi in ctx.callees(cfi, c):
+                                n_calls += 1
+                                cid = _cfgid(cv, c)
+                                karg = None
+                                for i, a in enumerate(c.args):
+                                    if i + 1 < len(pn) and isinstance(st.key, ast.Name) and pn[i + 1] == st.key.id:
+                                        karg = a
+                                for kw in c.keywords:
+                                    if isinstance(st.key, ast.Name) and kw.arg == st.key.id:
+                                        karg = kw.value
+                                if karg is None or _fresh_guard(cv, "_edge_list", karg, cid) is None:
+                                    callers_ok = False
+                    if n_calls and callers_ok:
+                        res.ok("P-FRESH", fi.short, norm(st.node), "_edge_list", _where(v, st.node))
+                    else:
+                        res.unknown("P-FRESH", fi.short, norm(st.node), "_edge_list", "the record is created by a private helper for a key it is handed; the freshness test of its callers was not established", _where(v, st.node))
+                    continue
             res.check(ok, "P-FRESH", fi.short, norm(st.node), "_edge_list", "an edge record is (re-)keyed without a dominating `key not in _edge_list` test: an existing record under that key is overwritten instead of merged", _where(v, st.node))
 
 
@@ -741,15 +767,11 @@ def check_atomic(ctx, res: Result, cls: str, methods):
 
 
 # ----------------------------------------------------------------------------- neighbours
-def check_neighbors(ctx, res: Result, cls: str):
-    if "get_neighbors" not in ctx.methods(cls):
-        return
-    v = ctx.view(f"{cls}.get_neighbors")
-    f = v.fi.short
-    rets = [n for n in walk_no_nested(v.fi.node) if isinstance(n, ast.Return) and n.value is not None]
+def _self_removal_points(v: FuncView, node_name: str):
+    """CFG ids of the constructs that take the queried node out of the neighbour set"""
     removal = set()
     for n in walk_no_nested(v.fi.node):
-        if isinstance(n, ast.Call) and isinstance(n.func, ast.Attribute) and n.func.attr in ("remove", "discard") and n.args and isinstance(n.args[0], ast.Name) and n.args[0].id == "node":
+        if isinstance(n, ast.Call) and isinstance(n.func, ast.Attribute) and n.func.attr in ("remove", "discard") and n.args and isinstance(n.args[0], ast.Name) and n.args[0].id == node_name:
             st = v.stmt_of(n)
             par = v.parent.get(id(st))
             # guarded form `if node in neigh: neigh.remove(node)` is represented by its test
@@ -757,20 +779,125 @@ def check_neighbors(ctx, res: Result, cls: str):
                 removal.add(v.cfg.by_ast[id(par.test)])
             else:
                 removal.add(_cfgid(v, st))
-        if isinstance(n, ast.BinOp) and isinstance(n.op, ast.Sub) and isinstance(n.right, ast.Set) and len(n.right.elts) == 1 and isinstance(n.right.elts[0], ast.Name) and n.right.elts[0].id == "node":
+        if isinstance(n, ast.BinOp) and isinstance(n.op, ast.Sub) and isinstance(n.right, ast.Set) and len(n.right.elts) == 1 and isinstance(n.right.elts[0], ast.Name) and n.right.elts[0].id == node_name:
+            removal.add(_cfgid(v, n))
+        if isinstance(n, ast.Call) and isinstance(n.func, ast.Attribute) and n.func.attr in ("difference", "difference_update") and n.args and any(isinstance(x, ast.Name) and x.id == node_name for x in ast.walk(n.args[0])):
             removal.add(_cfgid(v, n))
         if isinstance(n, (ast.SetComp, ast.ListComp, ast.GeneratorExp)):
             for g in n.generators:
                 for c in g.ifs:
-                    if isinstance(c, ast.Compare) and len(c.ops) == 1 and isinstance(c.ops[0], ast.NotEq) and {norm(c.left), norm(c.comparators[0])} >= {"node"}:
+                    if isinstance(c, ast.Compare) and len(c.ops) == 1 and isinstance(c.ops[0], ast.NotEq) and {norm(c.left), norm(c.comparators[0])} >= {node_name}:
                         removal.add(_cfgid(v, n))
-    if not rets:
-        raise AnalysisError(f"{f}: no return statement")
+    return removal
+
+
+def _excludes_self(ctx, v: FuncView, node_name: str, depth: int = 0):
+    """per return statement: 'ok' / 'violation' / 'unknown' - is the queried node out of the returned set?"""
+    out = []
+    removal = _self_removal_points(v, node_name)
+    rets = [n for n in walk_no_nested(v.fi.node) if isinstance(n, ast.Return) and n.value is not None]
     for r in rets:
         rid = _cfgid(v, r)
-        ok = rid in removal or not v.cfg.reaches_without(v.cfg.entry, rid, removal)
-        res.check(ok, "P-NEIGH", f, norm(r), "self-excluded", "a path returns the neighbour set without removing the queried node from it (a node would be its own neighbour)", _where(v, r))
+        if rid in removal or (removal and not v.cfg.reaches_without(v.cfg.entry, rid, removal)):
+            out.append((r, "ok"))
+            continue
+        # the set may be finished by a helper that is handed the node
+        status = "violation"
+        for c in [x for x in ast.walk(r.value) if isinstance(x, ast.Call)] + [d.value for d in walk_no_nested(v.fi.node) if isinstance(d, ast.Assign) and isinstance(d.value, ast.Call) and isinstance(r.value, ast.Name) and any(isinstance(t, ast.Name) and t.id == r.value.id for t in d.targets)]:
+            for callee in ctx.callees(v.fi, c):
+                if depth >= 2:
+                    status = "unknown"
+                    continue
+                pn = [a.arg for a in callee.params]
+                if callee.cls is not None and not callee.is_static and isinstance(c.func, ast.Attribute):
+                    pn = pn[1:]
+                mapped = None
+                for i, a in enumerate(c.args):
+                    if isinstance(a, ast.Name) and a.id == node_name and i < len(pn):
+                        mapped = pn[i]
+                for kw in c.keywords:
+                    if kw.arg and isinstance(kw.value, ast.Name) and kw.value.id == node_name:
+                        mapped = kw.arg
+                if mapped is None:
+                    continue
+                sub = _excludes_self(ctx, ctx.view(callee), mapped, depth + 1)
+                if sub and all(s_ == "ok" for _, s_ in sub):
+                    status = "ok"
+                elif status != "ok":
+                    status = "unknown"
+        out.append((r, status))
+    return out
+
+
+def check_neighbors(ctx, res: Result, cls: str):
+    if "get_neighbors" not in ctx.methods(cls):
+        return
+    v = ctx.view(f"{cls}.get_neighbors")
+    f = v.fi.short
+    node_name = v.fi.params[1].arg if len(v.fi.params) > 1 else "node"
+    verdicts = _excludes_self(ctx, v, node_name)
+    if not verdicts:
+        raise AnalysisError(f"{f}: no return statement")
+    for r, st in verdicts:
+        res.add("P-NEIGH", f, norm(r), "self-excluded", st, "" if st == "ok" else "a path returns the neighbour set without removing the queried node from it (a node would be its own neighbour)", _where(v, r))
     # the set is filled from node components only: handled by K-MEM (set.update with a composite)
+
+
+def _emptiness_tests(v: FuncView):
+    """[(test node, measured expression)] for `len(E) == 0`, `len(E) < 1`, `not E`, `E == set()/[]`, `len(E) > 0`, `if E`"""
+    out = []
+    for n in walk_no_nested(v.fi.node):
+        if isinstance(n, ast.Compare) and len(n.ops) == 1:
+            l, r = n.left, n.comparators[0]
+            for a, b in ((l, r), (r, l)):
+                if isinstance(a, ast.Call) and norm(a.func) == "len" and a.args and isinstance(b, ast.Constant) and b.value in (0, 1) and not isinstance(b.value, bool):
+                    e = a.args[0]
+                    while isinstance(e, ast.Call) and norm(e.func) in ("list", "set", "tuple", "sorted") and e.args:
+                        e = e.args[0]
+                    out.append((n, e))
+                if isinstance(b, (ast.List, ast.Set, ast.Tuple)) and not b.elts or (isinstance(b, ast.Call) and norm(b.func) in ("set", "list", "tuple") and not b.args):
+                    if not isinstance(a, ast.Constant):
+                        out.append((n, a))
+        if isinstance(n, ast.UnaryOp) and isinstance(n.op, ast.Not):
+            out.append((n, n.operand))
+    return out
+
+
+def check_isolation(ctx, res: Result, cls: str):
+    """Q-ISO: a node is isolated when it has no NEIGHBOUR.  A node whose only hyperedges are singletons has incident
+    hyperedges and no neighbour, so isolation decided from the incidence lists / a degree is a different predicate."""
+    targets = [f"{cls}.{m}" for m in ("isolated_nodes", "is_isolated") if m in ctx.methods(cls)]
+    seen = set()
+    work = [(ctx.require(d), 0) for d in targets]
+    while work:
+        fi, depth = work.pop()
+        if fi.qualname in seen:
+            continue
+        seen.add(fi.qualname)
+        v = ctx.view(fi)
+        f = fi.short
+        decided = False
+        for t, e in _emptiness_tests(v):
+            ei = v.inline(e)
+            txt = norm(ei)
+            tabs = [(c, tb, lvl) for x in ast.walk(ei) if isinstance(x, (ast.Subscript, ast.Attribute, ast.Name)) for (c, tb, lvl) in v.tables_of(getattr(x, "_orig", x)) if tb in T.ADJ_TABLES.get(c, ())]
+            calls = [norm(x.func).split(".")[-1] for x in ast.walk(ei) if isinstance(x, ast.Call)]
+            if "get_neighbors" in calls:
+                res.ok("Q-ISO", f, norm(t), "by-neighbours", _where(v, t))
+                decided = True
+            elif tabs or any(c in ("degree", "get_incident_edges", "degree_sequence") for c in calls):
+                res.violation("Q-ISO", f, norm(t), "by-neighbours", f"isolation is decided from `{txt[:80]}` (incident hyperedges), not from the neighbour set: a node whose hyperedges are all singletons has incident hyperedges but no neighbour", _where(v, t))
+                decided = True
+        if depth < 2:
+            for n in walk_no_nested(fi.node):
+                if isinstance(n, ast.Call):
+                    for callee in ctx.callees(fi, n):
+                        if callee.name in ("isolated_nodes", "is_isolated"):
+                            res.ok("Q-ISO", f, norm(n), "delegates", _where(v, n))
+                            decided = True
+                            work.append((callee, depth + 1))
+        if not decided:
+            res.unknown("Q-ISO", f, f"def {fi.name}", "by-neighbours", "how isolation is decided was not recognised", loc(fi, fi.node))
 
 
 # ----------------------------------------------------------------------------- temporal time validation
